@@ -184,7 +184,7 @@ func (t *ArrayType) IsAssignable(o px.Type, g px.Guard) bool {
 	case *ArrayType:
 		return t.size.IsAssignable(o.size, g) && GuardedIsAssignable(t.typ, o.typ, g)
 	case *TupleType:
-		return t.size.IsAssignable(o.givenOrActualSize, g) && allAssignableTo(o.types, t.typ, g)
+		return t.size.IsAssignable(o.givenOrActualSize, g) && tupleAssignableTo(o, t.typ, g)
 	default:
 		return false
 	}
